@@ -1033,8 +1033,13 @@ class PDFType1Font(PDFSimpleFont):
             widths = cast(
                 Dict[Union[str, int], float], int_widths
             )  # implicit int->float
+            has_builtin_metrics = True
         except KeyError:
-            descriptor = dict_value(spec.get("FontDescriptor", {}))
+            has_builtin_metrics = False
+        if not has_builtin_metrics or "Widths" in spec:
+            # Explicit widths take precedence over the built-in metrics.
+            if not has_builtin_metrics or "FontDescriptor" in spec:
+                descriptor = dict_value(spec.get("FontDescriptor", {}))
             firstchar = int_value(spec.get("FirstChar", 0))
             # lastchar = int_value(spec.get('LastChar', 255))
             width_list = list_value(spec.get("Widths", [0] * 256))
